@@ -159,6 +159,10 @@ func genStmts() string {
 			{"mpc/ps/tps.go", "TPS.waitForCommitmentDistribution"}, {"mpc/ps/tps.go", "TPS.waitForDeCommitmentDistribution"}, {"mpc/ps/tps.go", "TPS.combineShares"},
 			{"mpc/ps/tps.go", "TPS.commitPhase"}, {"mpc/ps/tps.go", "TPS.revealPhase"}, {"mpc/ps/tps.go", "TPS.shareDistribution"},
 			{"mpc/ps/tps.go", "TPS.validateCommitments"}, {"mpc/ps/tps.go", "TPS.assembleThresholdPublicKey"}, {"mpc/ps/tps.go", "TPS.Init"}}},
+		{"dkgps", []fref{{"mpc/ps/tps.go", "TPS.OnMsg"}, {"mpc/ps/tps.go", "TPS.KeyGen"}, {"mpc/ps/tps.go", "TPS.waitForShareDistribution"},
+			{"mpc/ps/tps.go", "TPS.waitForCommitmentDistribution"}, {"mpc/ps/tps.go", "TPS.waitForDeCommitmentDistribution"}, {"mpc/ps/tps.go", "TPS.combineShares"},
+			{"mpc/ps/tps.go", "TPS.commitPhase"}, {"mpc/ps/tps.go", "TPS.revealPhase"}, {"mpc/ps/tps.go", "TPS.shareDistribution"},
+			{"mpc/ps/tps.go", "TPS.validateCommitments"}, {"mpc/ps/tps.go", "TPS.assembleThresholdPublicKey"}, {"mpc/ps/tps.go", "TPS.Init"}}},
 		{"box", []fref{{"msg/msgbox.go", "Box.HandleMessage"}, {"msg/msgbox.go", "Box.storeOrForward"}, {"msg/msgbox.go", "Box.Send"},
 			{"msg/msgbox.go", "Box.getOrCreateMessagesByTopic"}, {"msg/msgbox.go", "Box.markTopicForSender"}, {"msg/msgbox.go", "storedMessages.add"},
 			{"msg/msgbox.go", "Box.maybeGC"}, {"msg/msgbox.go", "Box.mark"}, {"msg/msgbox.go", "Box.sweep"}, {"msg/msgbox.go", "Box.startClock"}}},
